@@ -692,7 +692,58 @@ func (c *Ctx) globalVar(st *State, o *types.Var) Val {
 	return v
 }
 
+// hasValidType: go/types recorded a usable type for e (false for expressions over generated code that is absent).
+func (c *Ctx) hasValidType(e ast.Expr) bool {
+	tv, ok := c.pkg.info.Types[e]
+	if ok && tv.Type != nil {
+		return validType(tv.Type)
+	}
+	if id, isId := e.(*ast.Ident); isId {
+		if o := c.pkg.info.ObjectOf(id); o != nil && o.Type() != nil {
+			return validType(o.Type())
+		}
+	}
+	return false
+}
+
 func (c *Ctx) evalBinary(st *State, x *ast.BinaryExpr) Val {
+	switch x.Op {
+	case token.EQL, token.NEQ, token.LSS, token.LEQ, token.GTR, token.GEQ:
+		// a comparison of a typed operand with an expression whose type is missing (it reads generated code that is not
+		// in the tree): the untyped side is an arbitrary value of the other side's type, chosen anew at every evaluation
+		// (an over-approximation: whatever the real expression yields is among the values considered).
+		okX, okY := c.hasValidType(x.X), c.hasValidType(x.Y)
+		if okX != okY {
+			typed := x.X
+			if okY {
+				typed = x.Y
+			}
+			tt := c.typeOf(typed)
+			if isStringType(tt) || isIntType(tt) || isBoolType(tt) {
+				tv := c.asScalar(c.eval(st, typed), tt)
+				var facts []Term
+				uv := c.asScalar(c.fresh(tt, "untyped", &facts), tt)
+				st.assume(c, And(facts...))
+				c.trusted["an operand whose type is missing from the tree (generated code) is an arbitrary value of the other operand's type"] = true
+				a, b := tv, uv
+				if okY {
+					a, b = uv, tv
+				}
+				var r Term
+				switch {
+				case x.Op == token.EQL:
+					r = Eq(a.T, b.T)
+				case x.Op == token.NEQ:
+					r = Not(Eq(a.T, b.T))
+				case isStringType(tt):
+					r = c.strCompare(x.Op, a.T, b.T)
+				default:
+					r = c.intCompare(x.Op, a.T, b.T, tt)
+				}
+				return Scalar{r, types.Typ[types.Bool]}
+			}
+		}
+	}
 	rt := c.typeOf(x)
 	switch x.Op {
 	case token.LAND, token.LOR:
@@ -929,6 +980,7 @@ type Place struct {
 	ty     types.Type
 	mapKey Val // map element place
 	mapRef Term
+	mapTy  *types.Map
 	isMap  bool
 	blank  bool
 }
@@ -980,7 +1032,7 @@ func (c *Ctx) place(st *State, e ast.Expr) Place {
 		case *types.Map:
 			m := c.asScalar(c.eval(st, x.X), bt)
 			k := c.eval(st, x.Index)
-			return Place{isMap: true, mapRef: m.T, mapKey: k, ty: u.Elem(), obj: nil, prefix: c.mapPrefix(u)}
+			return Place{isMap: true, mapRef: m.T, mapKey: k, mapTy: u, ty: u.Elem(), obj: nil, prefix: c.mapPrefix(u)}
 		}
 		unsupp("index place on %s at %s", bt, c.posStr(x.Pos()))
 	case *ast.SelectorExpr:
@@ -1528,11 +1580,70 @@ func (c *Ctx) mapHeap(st *State, fam, rowSort string) Term {
 	return t
 }
 
+// Maps with scalar keys are modelled as a domain set (per map object: key -> bool), a cardinality and - for scalar
+// element types - a value array. A nil map reads as empty; writing to a nil map panics.
+func (c *Ctx) mapKeyTerm(p Place) Term {
+	return c.asScalar(p.mapKey, p.mapTy.Key()).T
+}
+
+func (c *Ctx) mapValSort(m *types.Map) (string, bool) {
+	if st, ok := m.Elem().Underlying().(*types.Struct); ok && st.NumFields() == 0 {
+		return "", true // set-like map: no values
+	}
+	if s := c.scalarSort(m.Elem()); s != "" {
+		return s, true
+	}
+	return "", false
+}
+
 func (c *Ctx) mapLoad(st *State, p Place) Val {
-	unsupp("map read (maps are only partially modelled)")
-	return nil
+	if p.mapTy == nil {
+		unsupp("map read (maps are only partially modelled)")
+	}
+	vs, ok := c.mapValSort(p.mapTy)
+	if !ok {
+		unsupp("map read with element type %s", p.mapTy.Elem())
+	}
+	if vs == "" {
+		return c.zero(p.mapTy.Elem())
+	}
+	ks := c.mapKeySort(p.mapTy)
+	k := c.mapKeyTerm(p)
+	dom := Select(Select(c.mapHeap(st, p.prefix+"#dom", arraySort(ks, SBool)), p.mapRef), k)
+	val := Select(Select(c.mapHeap(st, p.prefix+"#val", arraySort(ks, vs)), p.mapRef), k)
+	z := c.asScalar(c.zero(p.mapTy.Elem()), p.mapTy.Elem()).T
+	return Scalar{Ite(And(Not(Eq(p.mapRef, Term{"0", SInt})), dom), val, z), p.mapTy.Elem()}
+}
+
+// mapHas: k is a key of the map (false for the nil map).
+func (c *Ctx) mapHas(st *State, m *types.Map, ref, k Term) Term {
+	ks := c.mapKeySort(m)
+	dom := Select(Select(c.mapHeap(st, c.mapPrefix(m)+"#dom", arraySort(ks, SBool)), ref), k)
+	return And(Not(Eq(ref, Term{"0", SInt})), dom)
 }
 
 func (c *Ctx) mapStore(st *State, p Place, v Val) {
-	unsupp("map write (maps are only partially modelled)")
+	if p.mapTy == nil {
+		unsupp("map write (maps are only partially modelled)")
+	}
+	vs, ok := c.mapValSort(p.mapTy)
+	if !ok {
+		unsupp("map write with element type %s", p.mapTy.Elem())
+	}
+	c.oblige(st, "nil", "map-write", token.NoPos, Not(Eq(p.mapRef, Term{"0", SInt})), "assignment to entry in nil map")
+	ks := c.mapKeySort(p.mapTy)
+	k := c.mapKeyTerm(p)
+	domFam, lenFam := p.prefix+"#dom", p.prefix+"#len"
+	hd := c.mapHeap(st, domFam, arraySort(ks, SBool))
+	row := Select(hd, p.mapRef)
+	had := Select(row, k)
+	hl := c.mapHeap(st, lenFam, c.idxSort())
+	oldLen := Select(hl, p.mapRef)
+	st.heaps[lenFam] = c.name(Store(hl, p.mapRef, Ite(had, oldLen, c.iadd(oldLen, c.idx(1)))), "M")
+	st.heaps[domFam] = c.name(Store(hd, p.mapRef, Store(row, k, TTrue)), "M")
+	if vs != "" {
+		valFam := p.prefix + "#val"
+		hv := c.mapHeap(st, valFam, arraySort(ks, vs))
+		st.heaps[valFam] = c.name(Store(hv, p.mapRef, Store(Select(hv, p.mapRef), k, c.asScalar(c.coerce(st, v, p.mapTy.Elem()), p.mapTy.Elem()).T)), "M")
+	}
 }
